@@ -203,6 +203,12 @@ class Facts:
         c = self.fns(qname)
         if nparams is not None:
             c = [f for f in c if len(f["params"]) == nparams]
+        if len(c) > 1 and nparams is None:
+            # overloads: the entry point without parameters is the one the rules name (`rebuild()`); the others are its helpers and are
+            # spliced in by expand_member_helpers where it calls them
+            z = [f for f in c if len(f["params"]) == 0]
+            if len(z) == 1:
+                return z[0]
         if len(c) != 1:
             raise AnalysisBroken("expected exactly one definition of %s%s, found %d" % (
                 qname, "" if nparams is None else "/%d" % nparams, len(c)))
@@ -653,6 +659,21 @@ def first_repo_diag(stderr):
     return "?", 0, stderr.strip().splitlines()[0] if stderr.strip() else "unknown error"
 
 
+def donor_run(res, donor, sub, tier="quick"):
+    """runs the `run` of another property's rule module into `sub` for re-export; when the donor cannot follow the code the re-exporting
+    check goes on with its own clauses and the donor's `analysis broken` is deferred: the driver reports it (exit 2) only if no clause of
+    the re-exporting check has a verdict of its own (`res.deferred`)"""
+    try:
+        donor.run(sub, tier)
+        return True
+    except AnalysisBroken as e:
+        if not hasattr(res, "deferred"):
+            res.deferred = []
+        res.deferred.append(e)
+        sub.broken = True
+        return False
+
+
 def reexport(res, sub, prefixes, new_rule, suffix="", min_instances=0, what="facts"):
     """copies the instances / violations of `sub` whose rule starts with one of `prefixes` into `res` under `new_rule`; returns the number of
     instances copied (a re-exported clause with no instance at all means the donor rule no longer produces its facts: analysis broken)"""
@@ -664,6 +685,6 @@ def reexport(res, sub, prefixes, new_rule, suffix="", min_instances=0, what="fac
     for v in sub.violations:
         if v["rule"].startswith(tuple(prefixes)):
             res.violation(new_rule, v["file"], v["function"], v["key"], v["line"], v["msg"] + suffix)
-    if n < min_instances:
+    if n < min_instances and not getattr(sub, "broken", False):
         raise AnalysisBroken("re-exported rule %s: %d %s from %s (at least %d confirmed by reading)" % (new_rule, n, what, "/".join(prefixes), min_instances))
     return n
